@@ -21,6 +21,8 @@ int sim_connect(int fd, const struct sockaddr *addr, socklen_t len);
 int sim_select(int nfds, fd_set *r, fd_set *w, fd_set *e, struct timeval *tv);
 ssize_t sim_read(int fd, void *buf, size_t n);
 ssize_t sim_write(int fd, const void *buf, size_t n);
+ssize_t sim_recv(int fd, void *buf, size_t n, int flags);
+ssize_t sim_send(int fd, const void *buf, size_t n, int flags);
 int sim_close(int fd);
 char *sim_strdup(const char *s);
 void sim_free(void *p);
@@ -30,6 +32,8 @@ void sim_free(void *p);
 #define select sim_select
 #define read sim_read
 #define write sim_write
+#define recv sim_recv
+#define send sim_send
 #define close sim_close
 #define strdup sim_strdup
 #define free sim_free
